@@ -212,7 +212,8 @@ def obligations(tier, seed):
             if "/fs" not in ob["name"]:
                 continue
             nT = len(ob["cube"]["spec"]["tasks"])
-            for pm in ([list(reversed(range(nT)))] if not thorough else [list(reversed(range(nT))), list(range(1, nT)) + [0]]):
+            pms = [list(reversed(range(nT)))] if not thorough else [list(reversed(range(nT))), list(range(1, nT)) + [0]]
+            for pm in [pm for k, pm in enumerate(pms) if pm not in pms[:k]]:
                 narrow = {"cap0": (1, 2), "cap1": (1, 2), "fs0": (1, 2), "fs1": (1, 1), "z1": (1, 1)}
                 pr = [[n, max(lo, narrow[n][0]), min(hi, narrow[n][1])] if n in narrow else [n, lo, hi] for n, lo, hi in ob["params"]]
                 obs.append({"name": "order/" + ob["name"] + "/perm=" + "".join(map(str, pm)), "harness": "order", "cube": {"spec": ob["cube"]["spec"], "perm": pm},
